@@ -102,13 +102,16 @@ func judgeCompare(c cmpCase) (sig, what string) {
 	return "", ""
 }
 
+// constants may also be padded (values cannot: the decoder trims them)
+var cmpPadded = []string{" 10", "10 ", " 9 ", " 10.0", "07 ", " a", "a ", " A ", " ", "  "}
+
 func cmpCases() []cmpCase {
 	var out []cmpCase
-	for _, k := range cmpOperands {
+	for _, k := range append(append([]string{}, cmpOperands...), cmpPadded...) {
 		for _, op := range ops {
 			out = append(out, cmpCase{k, true, op})
 			// unquoted number tokens (the language has unsigned integer tokens only)
-			if k != "" && strings.Trim(k, "0123456789") == "" {
+			if k != "" && strings.Trim(k, "0123456789") == "" && len(k) < 18 {
 				out = append(out, cmpCase{k, false, op})
 			}
 		}
